@@ -285,6 +285,8 @@ pub struct FileOut {
 pub struct Prog {
     pub files: Vec<FileOut>, // files[0] = main
     pub feats: Vec<&'static str>,
+    /// hand-written witness: only the listed occurrences are constrained (identifiers that are not listed may answer)
+    pub lenient: bool,
 }
 
 #[derive(Clone, Debug)]
